@@ -149,3 +149,51 @@ Qed.
 Theorem livermore_no_shell_energy_conserved (e_inc : R) :
   i_secs (livermore_no_shell e_inc) = [] /\ i_deposit (livermore_no_shell e_inc) = e_inc.
 Proof. split; reflexivity. Qed.
+
+(** ** atomic relaxation: thresholds by particle type and energy bookkeeping *)
+Definition sec_cut (cut_g cut_e : R) (s : secondary R) : R :=
+  match s_pid s with PElectron => cut_e | PGamma => cut_g | _ => 0 end.
+
+Lemma relax_emit_spec (cut_g cut_e : R) : forall trs s secs esum s',
+  relax_emit cut_g cut_e trs s = Some ((secs, esum), s') -> canon s ->
+  Forall (fun x => sec_cut cut_g cut_e x <= s_energy x /\ unitv (s_dir x) /\
+                   (s_pid x = PElectron \/ s_pid x = PGamma)) secs /\
+  esum = sec_energy_sum secs /\
+  esum + relax_suppressed cut_g cut_e trs = tr_energy_sum trs /\ canon s'.
+Proof.
+  induction trs as [|t r IH]; intros s secs esum s' E Hc.
+  - apply ret_some in E. inversion E; subst. unfold sec_energy_sum, tr_energy_sum. cbn. numR.
+    repeat split; try constructor; try lra. exact Hc.
+  - cbn [relax_emit relax_suppressed] in E |- *. numR.
+    destruct (Rleb_spec (if tr_auger t then cut_e else cut_g) (tr_energy t)) as [Hge|Hlt].
+    + apply bind_some in E as (d & s1 & E1 & E).
+      destruct s as [|u1 [|u2 s0]]; try discriminate.
+      apply canon_cons in Hc as [Hu1 Hc]. apply canon_cons in Hc as [Hu2 Hc].
+      destruct (isotropic_unit u1 u2 s0 Hu1 Hu2) as (v & Ev & Hv). rewrite Ev in E1. inversion E1; subst; clear E1.
+      apply bind_some in E as ([l e] & s2 & E2 & E). apply ret_some in E. inversion E; subst; clear E.
+      destruct (IH _ _ _ _ E2 Hc) as (HF & He & Hs & Hc').
+      unfold sec_energy_sum, tr_energy_sum in *. cbn [map nsum s_energy]. numR.
+      split; [|split; [rewrite He; reflexivity|split; [lra|exact Hc']]].
+      constructor; [|exact HF]. unfold sec_cut. cbn [s_pid s_energy s_dir].
+      destruct (tr_auger t); (split; [exact Hge|split; [exact Hv|tauto]]).
+    + destruct (IH _ _ _ _ E Hc) as (HF & He & Hs & Hc').
+      unfold tr_energy_sum in *. cbn [map nsum]. numR. repeat split; try assumption. lra.
+Qed.
+
+(** every relaxation secondary is at or above the production cut of its own particle
+    type, and the energy of the suppressed transitions stays in the local deposit *)
+Theorem livermore_relax_thresholds_and_deposit (e_inc binding : R) edir (cut_g cut_e : R) trs s r s' :
+  canon s -> livermore_relax e_inc binding edir cut_g cut_e trs s = Some (r, s') ->
+  exists el secs, i_secs r = el :: secs /\ s_pid el = PElectron /\ s_energy el = e_inc - binding /\
+    Forall (fun x => sec_cut cut_g cut_e x <= s_energy x /\ unitv (s_dir x) /\
+                     (s_pid x = PElectron \/ s_pid x = PGamma)) secs /\
+    i_deposit r = (binding - tr_energy_sum trs) + relax_suppressed cut_g cut_e trs /\
+    e_inc = sec_energy_sum (i_secs r) + i_deposit r.
+Proof.
+  intros Hc E. unfold livermore_relax in E. apply bind_some in E as ([secs esum] & s1 & E1 & E).
+  apply ret_some in E. inversion E; subst; clear E.
+  destruct (relax_emit_spec _ _ _ _ _ _ _ E1 Hc) as (HF & He & Hs & _).
+  unfold livermore_final. eexists; exists secs. cbn [i_secs i_deposit s_pid s_energy]. numR.
+  split; [reflexivity|]. split; [reflexivity|]. split; [reflexivity|]. split; [exact HF|].
+  split; [lra|]. unfold sec_energy_sum in *. cbn [map nsum s_energy]. numR. lra.
+Qed.
